@@ -6,6 +6,9 @@ the mode itself, logic blocks with timeouts and hit windows, timers, combo/timed
 delayed control events) and driven by generated request sequences: direct start()/stop(), start/stop events, starts
 from inside queue events, requests issued by handlers of the mode's OWN lifecycle events (hooks), waits that hold
 mode_*_starting / mode_*_stopping open while other requests and control events arrive, repeated cycles, ball/game ends.
+About a quarter of the modes run custom code derived from mpf.core.async_mode.AsyncMode (vlib/c07_async.py); the
+'ostop' op issues stop(callback) three times (2nd/3rd while a handler holds mode_<m>_stopping; the 3rd may be the stop
+event, a ball end or a game end instead).
 
 Monitors (all at the boundary the property names):
   * EventManager._post wrapper  : post order of mode_<m>_{will_start,starting,started,will_stop,stopping,stopped}
@@ -57,6 +60,11 @@ ASSUMPTIONS = [
     "first rest point after the completion callback of that mode_<m>_stopped event ran; order among several callbacks "
     "of one stop and whether they run before or after a restart requested from the stopped event are free; a callback "
     "handed to a stop() that returned False must never run",
+    "overlapping stop requests: Mode.stop(callback=cb) on a mode that is already stopping returns True and only "
+    "registers cb (mode.py: 'do not stop twice. only register callback in that case'); exactly that is demanded for "
+    "plain modes and for modes whose code derives from mpf.core.async_mode.AsyncMode (vlib/c07_async.py, ~27% of the "
+    "generated modes; their requests are observed at AsyncMode.stop): cb runs once with the stop in progress "
+    "(clause stop_callback_overlap counts these judgements)",
     "registry comparison is made at rest points only (event queue and callback queue empty) and only for modes whose "
     "reference state is stopped; entries are compared without uuids/ids/non-scalar kwargs",
     "loop timers are compared by attribution only (callback bound to the mode, its DelayManager, one of its devices or "
@@ -83,11 +91,11 @@ TIERS = {
 MIN_EVALS = {
     "quick": {"lifecycle_order": 40000, "dispatch_once": 280000, "request_guard": 22000, "progress": 13000,
               "active_list": 60000, "registry_mode": 27000, "registry_full": 5000, "request_delivered": 38000,
-              "stop_callback": 8000, "player_plays": 1200},
+              "stop_callback": 8000, "stop_callback_overlap": 3000, "player_plays": 1200},
     "thorough": {"lifecycle_order": 5000000, "dispatch_once": 18000000, "request_guard": 2400000, "progress": 1600000,
                  "active_list": 6000000, "registry_mode": 1800000, "registry_full": 340000,
                  "request_delivered": 2400000, "stop_callback": 400000,
-                 "player_plays": 50000},
+                 "stop_callback_overlap": 60000, "player_plays": 50000},
 }
 
 
@@ -197,6 +205,8 @@ def _gen_mode(rng, i, kind, tier):
     if "light" in pl and rng.random() < 0.5:
         pl["light_multi"] = True
     md["players"] = pl
+    # custom mode code built on mpf.core.async_mode.AsyncMode (vlib/c07_async.py)
+    md["async"] = rng.choice(["forever", "forever", "finite"]) if rng.random() < 0.27 else None
     return md
 
 
@@ -299,6 +309,17 @@ def gen_case(rng, tier, index):
         seq += [["post", "halt%d" % i] if rng.random() < 0.6 else ["drain"], ["adv", 0.3]]
         at = rng.randint(0, len(ops))
         ops[at:at] = seq
+    # overlapping stop requests WITH completion callbacks while a handler holds mode_<m>_stopping open
+    for i, md in enumerate(modes):
+        if rng.random() < (0.85 if md.get("async") else 0.3):
+            for _ in range(rng.choice([1, 1, 2])):
+                third = rng.choice(["stop", "stop", "event", "drain", "drain", "end_game"] if kind == "game" else
+                                   ["stop", "stop", "event"])
+                seq = [["ostop", i, rng.choice([0.3, 0.6, 1.5, 2.5]), [rng.choice([0.0, 0.0, 0.05]),
+                                                                       rng.choice([0.0, 0.05, 0.2])], third],
+                       ["adv", rng.choice([0.05, 0.3])]]
+                at = rng.randint(0, len(ops))
+                ops[at:at] = seq
     return {"kind": kind, "modes": modes, "hooks": hooks, "ops": ops}
 
 
@@ -327,6 +348,8 @@ def _mode_cfg(md):
             "start_priority": md["start_priority"], "stop_priority": md["stop_priority"]}
     if not md["game_mode"]:
         mode["stop_on_ball_end"] = False
+    if md.get("async"):
+        mode["code"] = "vlib.c07_async.C07Async" + md["async"].capitalize()
     if md["ews"]:
         mode["events_when_started"] = list(md["ews"])
     if md["ewst"]:
@@ -420,9 +443,11 @@ def _install_patches():
     handler registry at boot).  They are pass-through unless a monitor is active."""
     from mpf.core.mode import Mode
     from mpf.core.events import EventManager
+    from mpf.core.async_mode import AsyncMode
     if getattr(Mode.start, "_c07", False):
         return
     o_start, o_stop, o_post = Mode.start, Mode.stop, EventManager._post
+    o_astop = AsyncMode.__dict__["stop"]
     _ORIG.update(start=o_start, stop=o_stop, post=o_post)
 
     def start(self, mode_priority=None, callback=None, **kwargs):
@@ -433,9 +458,16 @@ def _install_patches():
 
     def stop(self, callback=None, **kwargs):
         mon = _MON[0]
-        if mon is None or self.name not in mon.models or self.machine is not mon.m:
+        if mon is None or self.name not in mon.models or self.machine is not mon.m or isinstance(self, AsyncMode):
+            # AsyncMode overrides stop(): its requests are observed at AsyncMode.stop (the public entry point)
             return o_stop(self, callback, **kwargs)
         return mon.on_stop_call(self, o_stop, callback, kwargs)
+
+    def astop(self, callback=None, **kwargs):
+        mon = _MON[0]
+        if mon is None or self.name not in mon.models or self.machine is not mon.m:
+            return o_astop(self, callback, **kwargs)
+        return mon.on_stop_call(self, o_astop, callback, kwargs)
 
     def _post(self, event, ev_type, callback, **kwargs):
         mon = _MON[0]
@@ -447,7 +479,10 @@ def _install_patches():
     start.__doc__ = o_start.__doc__
     stop.__doc__ = o_stop.__doc__
     Mode.start = start
+    astop.__doc__ = o_astop.__doc__
+    astop.__name__ = "stop"      # registry snapshots name bound handlers by function name
     Mode.stop = stop
+    AsyncMode.stop = astop
     EventManager._post = _post
 
 
@@ -490,7 +525,7 @@ class _Monitor:
         self.seen = set()
         self.clauses = {"lifecycle_order": 0, "dispatch_once": 0, "request_guard": 0, "progress": 0, "active_list": 0,
                         "registry_mode": 0, "registry_full": 0, "request_delivered": 0, "stop_callback": 0,
-                        "player_plays": 0, "no_crash": 0}
+                        "stop_callback_overlap": 0, "player_plays": 0, "no_crash": 0}
         self.obs = {"lifecycle_posts": 0, "start_calls": 0, "stop_calls": 0, "accepted_starts": 0, "accepted_stops": 0,
                     "rejected_requests": 0, "requests_from_lifecycle_handlers": 0, "hook_fires": 0, "held_waits": 0,
                     "requests_while_queue_held": 0, "full_cycles": 0, "snapshots": 0, "rest_points": 0,
@@ -499,7 +534,10 @@ class _Monitor:
                     "progress_unjudged": 0, "code_registrations": 0,
                     "game_fail_stop_on_game_mode_restarted_at_game_end": 0,
                     "crash_with_game_mode_running_outside_game": 0, "stop_callbacks_handed_in": 0,
-                    "stop_callbacks_run": 0, "stop_callbacks_while_already_stopping": 0}
+                    "stop_callbacks_run": 0, "stop_callbacks_while_already_stopping": 0,
+                    "async_modes": 0, "async_mode_stop_calls": 0, "async_stop_callbacks_while_already_stopping": 0,
+                    "async_stop_callbacks_while_already_stopping_run": 0, "overlap_stop_ops": 0,
+                    "overlap_stop_ops_held": 0, "ball_or_game_end_while_async_game_mode_stopping": 0}
         self.ctx = "boot"
         self.lifecycle_posts = 0
         self.last_release = 0.0
@@ -607,6 +645,8 @@ class _Monitor:
         M = self.models[mo.name]
         M.stop_calls += 1
         self.obs["stop_calls"] += 1
+        if self.cfg[mo.name].get("async"):
+            self.obs["async_mode_stop_calls"] += 1
         if self.in_lifecycle_handler:
             self.obs["requests_from_lifecycle_handlers"] += 1
         if self.held:
@@ -617,7 +657,7 @@ class _Monitor:
         if callback:
             # the stop this request belongs to is the one whose mode_<m>_stopped is posted next
             tok = {"id": len(self.cb_tokens), "mode": mo.name, "k": M.cycles + 1, "state": state, "runs": 0,
-                   "returned": None, "ctx": str(self.ctx), "judged": False}
+                   "returned": None, "ctx": str(self.ctx), "judged": False, "async": bool(self.cfg[mo.name].get("async"))}
             callback = self._wrap_stop_callback(tok, callback)
         outer = M.call_posts
         M.call_posts = []
@@ -632,6 +672,8 @@ class _Monitor:
             self.obs["stop_callbacks_handed_in"] += 1
             if tok["returned"] and state == "stopping":
                 self.obs["stop_callbacks_while_already_stopping"] += 1
+                if tok["async"]:
+                    self.obs["async_stop_callbacks_while_already_stopping"] += 1
         accepted = "will_stop" in posts
         self.clauses["request_guard"] += 1
         if accepted:
@@ -669,6 +711,8 @@ class _Monitor:
         tok["run_cycles"] = M.cycles
         self.clauses["stop_callback"] += 1
         self.obs["stop_callbacks_run"] += 1
+        if tok["async"] and tok["state"] == "stopping" and tok["returned"]:
+            self.obs["async_stop_callbacks_while_already_stopping_run"] += 1
         info = dict(mode=tok["mode"], handed_in_at=tok["ctx"], state_when_handed_in=tok["state"], belongs_to_stop=tok["k"],
                     stops_completed_now=M.cycles, state_now=M.state, history=M.history[-10:])
         if tok["returned"] is False:
@@ -696,14 +740,20 @@ class _Monitor:
             if M.cycles >= tok["k"] and not M.finalising:
                 tok["judged"] = True
                 self.clauses["stop_callback"] += 1
+                if tok["state"] == "stopping":
+                    # request which overlapped a stop in progress: accepted (returned True) -> completes with it
+                    self.clauses["stop_callback_overlap"] += 1
                 if tok["runs"] == 0:
                     sig = "stop_callback_never_ran_for_its_stop"
                     if tok["k"] in M.restart_cycles:
                         sig = "stop_callback_lost_when_mode_restarted_while_stop_is_finalising"
+                    elif tok["state"] == "stopping":
+                        sig = "stop_callback_never_called_for_stop_request_while_already_stopping"
                     mo = self.m.modes[tok["mode"]]
                     self.V("stop_callback", sig, mode=tok["mode"], handed_in_at=tok["ctx"],
                            state_when_handed_in=tok["state"], belongs_to_stop=tok["k"], stops_completed_now=M.cycles,
                            state_now=M.state, pending_in_mode_stop_callbacks=len(mo.stop_callbacks),
+                           mode_class=type(mo).__name__, async_mode=tok["async"],
                            history=M.history[-10:])
 
     # ---------------------------------------------------------------------------------------
@@ -934,7 +984,7 @@ class _Monitor:
         for n, M in self.models.items():
             if M.state != "active":
                 continue
-            have = set(e[1] for e in (snap.per_mode.get(n) or {}) if e[0] == "E" and e[2] == "Mode:%s.stop" % n)
+            have = set(e[1] for e in (snap.per_mode.get(n) or {}) if e[0] == "E" and e[2] == "%s:%s.stop" % (type(self.m.modes[n]).__name__, n))
             for event in self.cfg[n]["stop_events"]:
                 self.clauses["request_delivered"] += 1
                 if event not in have:
@@ -1092,8 +1142,61 @@ def run_case(case):
             pf.balls = 0
             pf.available_balls = 0
 
+        def overlapping_stops(op):
+            """stop(cb) on a running mode, a handler holds mode_<m>_stopping, then two more requests (stop(cb), and
+            stop(cb) / the mode's stop event / ball end / game end) while it is stopping; then the hold is released."""
+            _k, mi, hold, gaps, third = op
+            md = case["modes"][mi]
+            n = md["name"]
+            mo = m.modes[n]
+            M = mon.models[n]
+            mon.obs["overlap_stop_ops"] += 1
+            if M.state == "stopped":
+                mo.start()
+                vm.advance(0.05)
+            state = {"armed": True, "held": False}
+
+            def c07_hold_stopping(queue=None, **kwargs):
+                if not state["armed"] or mon.done or queue is None or queue.waiter:
+                    return
+                state["armed"] = False
+                state["held"] = True
+                queue.wait()
+                mon.held += 1
+                mon.obs["held_waits"] += 1
+                mon.last_release = max(mon.last_release, vm.now() + hold)
+
+                def release():
+                    mon.held -= 1
+                    queue.clear()
+                vm.loop.call_later(hold, release)
+            key = m.events.add_handler("mode_%s_stopping" % n, c07_hold_stopping, priority=2)
+            try:
+                mon.request_stop(mo, True)
+                vm.advance(gaps[0])
+                if state["held"] and M.state == "stopping":
+                    mon.obs["overlap_stop_ops_held"] += 1
+                mon.request_stop(mo, True)
+                vm.advance(gaps[1])
+                if md.get("async") and md["game_mode"] and M.state == "stopping" and third in ("drain", "end_game") \
+                        and m.game:
+                    mon.obs["ball_or_game_end_while_async_game_mode_stopping"] += 1
+                if third == "stop":
+                    mon.request_stop(mo, True)
+                elif third == "event":
+                    m.events.post("halt%d" % mi)
+                elif third == "drain":
+                    drain()
+                elif third == "end_game":
+                    end_game()
+                vm.advance(max(0.0, mon.last_release - vm.now()) + 0.1)
+            finally:
+                state["armed"] = False
+                m.events.remove_handler_by_key(key)
+
         try:
             mon.install_observers()
+            mon.obs["async_modes"] += sum(1 for md in case["modes"] if md.get("async"))
             vm.advance(HORIZONS["boot_settle_s"])
             mon.baseline()
             _MON[0] = mon
@@ -1150,6 +1253,10 @@ def run_case(case):
                         mon.request_stop(mo, len(op) > 3 and bool(op[3]))
                         vm.advance(0.05)
                         mon.rest_point("cycle")
+                elif k == "ostop":
+                    shape.append("O" + op[4][0])
+                    overlapping_stops(op)
+                    mon.rest_point("ostop")
                 elif k == "drain":
                     shape.append("B")
                     drain()
@@ -1218,6 +1325,7 @@ def run_case(case):
     flags = []
     for md in case["modes"]:
         f = ("G" if md["game_mode"] else "n") + ("W" if md["use_wait_queue"] else "") + \
+            ({"forever": "A", "finite": "a"}.get(md.get("async"), "")) + \
             "".join(sorted(k[0] + k[-1] for k in md["dev"])) + "/" + "".join(sorted(k[0] for k in md["players"]))
         own = [e for e in md["start_events"] + md["stop_events"] if e.startswith("mode_" + md["name"])]
         if own or any(e.startswith("go") for e in md["ewst"]) or any(e.startswith("halt") for e in md["ews"]):
